@@ -69,6 +69,12 @@ Theorem C21_debug_str_form : forall o,
 Proof. intro o. split; [intros s ->; exact (debug_str_name s)|exact (debug_str_shape o)]. Qed.
 Print Assumptions C21_debug_str_form.
 
+(* ... and when the value came from a missing attribute / element, the debug text names the OWNER's type,
+   whatever the owner's truth value (None, {}, [], '', 0 are owners like any other) *)
+Theorem C21_debug_str_owner : forall o t, eff_hint o = None -> obj o = Some t -> infix t (debug_str o).
+Proof. exact debug_str_owner. Qed.
+Print Assumptions C21_debug_str_owner.
+
 (* logging variants: printing and iterating are logged (make_logging_undefined docstring) *)
 Theorem C21_logging_print_iter : forall c o, In (c, o) all_cells -> log_print_iter_ok tables facts (c, o) = true.
 Proof. apply forallb_cells. vm_compute. reflexivity. Qed.
